@@ -368,7 +368,10 @@ const MLA_FORMAT_VERSION: u32 = 1;
 /// Maximum number of UTF-8 characters supported in each file's "name" (which is free
 /// to be used as a filename, an absolute path, or... ?). 32KiB was chosen because it
 /// supports any path a Windows NT, Linux, FreeBSD, OpenBSD, or NetBSD kernel supports.
+#[cfg(not(feature = "mla_verif"))]
 const FILENAME_MAX_SIZE: u64 = 65536;
+#[cfg(feature = "mla_verif")]
+const FILENAME_MAX_SIZE: u64 = 48;
 /// Maximum allowed object size (in bytes) to deserialize in-memory, to avoid `DoS` on
 /// malformed files
 pub(crate) const BINCODE_MAX_DESERIALIZE: u64 = 512 * 1024 * 1024;
